@@ -68,7 +68,9 @@ func cmdCheck(w *World, args []string, tier string, verbose bool) int {
 	var results []*fnResult
 
 	for _, ct := range w.Contracts.Order {
-		if ct.Kind != "func" || ct.Assumed {
+		// "impl" contracts are checked against the body but not used at call sites (callers see the
+		// abstract "func" contract of the same function)
+		if !(ct.Kind == "func" || ct.Kind == "impl") || ct.Assumed {
 			continue
 		}
 		relevant := hasProp(ct.Props, prop)
@@ -96,6 +98,11 @@ func cmdCheck(w *World, args []string, tier string, verbose bool) int {
 		}
 		fx := newFnExec(w, fn, ct)
 		obls, err := fx.Run()
+		if ct.Kind == "impl" {
+			for _, o := range obls {
+				o.Name = strings.Replace(o.Name, ct.Name+"/", ct.Name+"/impl-", 1)
+			}
+		}
 		r := &fnResult{name: ct.Name, fx: fx, obls: obls, err: err}
 		results = append(results, r)
 		if err != nil {
